@@ -601,8 +601,8 @@ func (r *Runner) execSketch(cmd string, a []string) string {
 		if (e.exact != nil) != (o.exact != nil) {
 			return "bad-op"
 		}
-		argBefore := r.sketchObsQuiet(o)
-		before := r.sketchObsQuiet(e)
+		argBefore := r.obsBefore(o)
+		before := r.obsBefore(e)
 		var err error
 		okp, msg := guard(func() {
 			if e.exact != nil {
@@ -714,7 +714,7 @@ func (r *Runner) execSketch(cmd string, a []string) string {
 		if !ok {
 			return "bad-op"
 		}
-		before := r.sketchObsQuiet(e)
+		before := r.obsBefore(e)
 		var err error
 		okp, msg := guard(func() {
 			if e.exact != nil {
@@ -949,7 +949,12 @@ func (r *Runner) execSketch(cmd string, a []string) string {
 			return "bad-op"
 		}
 		var derr error
-		before := snapshot(e)
+		var before skSnapshot
+		if r.peek() {
+			before = snapshot(e)
+		} else {
+			before = snapshot(copyEntry(e)) // leaves the target's internal organisation alone
+		}
 		okp, msg := guard(func() {
 			if e.exact != nil {
 				derr = e.exact.DecodeAndMergeWith(bs)
@@ -975,6 +980,32 @@ func (r *Runner) execSketch(cmd string, a []string) string {
 		return "ok"
 	}
 	return "bad-op"
+}
+
+// The oracles that compare a sketch before and after an operation must not always read the sketch
+// itself first: reading reorganises some stores (sorted buffers, compaction), and a defect that only
+// shows in a particular internal state would be hidden. Every other time the "before" picture is
+// taken from a copy.
+func (r *Runner) peek() bool {
+	r.peekCtr++
+	return r.peekCtr%2 == 0
+}
+
+func copyEntry(e *skEntry) *skEntry {
+	c := &skEntry{mh: e.mh, storeKind: e.storeKind, n: e.n}
+	if e.exact != nil {
+		c.exact = e.exact.Copy()
+	} else {
+		c.plain = e.plain.Copy()
+	}
+	return c
+}
+
+func (r *Runner) obsBefore(e *skEntry) string {
+	if r.peek() {
+		return r.sketchObsQuiet(e)
+	}
+	return r.sketchObsQuiet(copyEntry(e))
 }
 
 // sketchObsQuiet is the observation without running the coherence oracle (used for frame checks).
